@@ -137,6 +137,8 @@ pub struct GenCtx<'a> {
     pub by_kind: Vec<Vec<u32>>,
     /// per kind: ops whose cold run took < 120 us (candidates for medium-haul repetition)
     pub quick_by_kind: Vec<Vec<u32>>,
+    /// non-poison projection ops on the thread-local instance (slot-targeted points)
+    pub tl_slot_ops: Vec<u32>,
 }
 
 impl<'a> GenCtx<'a> {
@@ -148,6 +150,7 @@ impl<'a> GenCtx<'a> {
         let mut kinds: Vec<&'static str> = Vec::new();
         let mut by_kind: Vec<Vec<u32>> = Vec::new();
         let mut quick_by_kind: Vec<Vec<u32>> = Vec::new();
+        let mut tl_slot_ops: Vec<u32> = Vec::new();
         for (i, p) in pool.ops.iter().enumerate() {
             if refs[i].status != "ok" || refs[i].outcome.is_none() {
                 continue;
@@ -172,11 +175,14 @@ impl<'a> GenCtx<'a> {
                 }
             };
             by_kind[k].push(i as u32);
+            if p.poison.is_none() && matches!(p.op, Op::Forward { t: crate::ops::Target::Tl, .. } | Op::Inverse { t: crate::ops::Target::Tl, .. }) {
+                tl_slot_ops.push(i as u32);
+            }
             if refs[i].us < 120 {
                 quick_by_kind[k].push(i as u32);
             }
         }
-        GenCtx { pool, refs, usable, by_group, poison_by_group, cheap, kinds, by_kind, quick_by_kind }
+        GenCtx { pool, refs, usable, by_group, poison_by_group, cheap, kinds, by_kind, quick_by_kind, tl_slot_ops }
     }
 }
 
@@ -345,6 +351,29 @@ pub fn generate(g: &GenCtx, seed: u64) -> Scenario {
                 sc.mode = "medium_haul".into();
             }
         }
+    }
+    // slot sweep: one thread walks through a large random part of the 240 + 30 memo slots in a
+    // random order (fill orders, "cache full" conditions), then revisits some of them warm
+    if rng.pct(4) && g.tl_slot_ops.len() >= 100 {
+        sc.mode = "slot_sweep".into();
+        let mut order: Vec<u32> = g.tl_slot_ops.clone();
+        rng.shuffle(&mut order);
+        let n = rng.range(60, order.len() as i64) as usize;
+        order.truncate(n);
+        let t = rng.below(sc.threads.len() as u64) as usize;
+        let mut steps: Vec<Step> = Vec::new();
+        for ix in &order {
+            let op = intern(&mut sc, *ix);
+            steps.push(Step { op, repeat: 1, rekey: None });
+        }
+        for _ in 0..rng.range(5, 40) {
+            let op = intern(&mut sc, *rng.pick(&order));
+            steps.push(Step { op, repeat: 1, rekey: None });
+        }
+        let at = rng.below(sc.threads[t].steps.len() as u64 + 1) as usize;
+        let tail = sc.threads[t].steps.split_off(at);
+        sc.threads[t].steps.extend(steps);
+        sc.threads[t].steps.extend(tail);
     }
     if long_haul && !g.cheap.is_empty() {
         sc.mode = "long_haul".into();
